@@ -1,23 +1,48 @@
 ------------------------------ MODULE MCSegLog ------------------------------
+(* Model-checking / behaviour-generation instance of SegLog.                           *)
+(* Two bookkeeping variables steer behaviour generation towards the histories C18 is   *)
+(* about.  risk[r] is the set of offsets whose bytes changed (header replaced through  *)
+(* ANOTHER reader, truncated, or flushed later) while reader r's read-ahead buffer     *)
+(* covered them or ended below them; crit says that the step just taken was a          *)
+(* sequential read / iteration by r over such an offset.  They are part of the VIEW,   *)
+(* so a history in which a long-lived reader re-reads what changed behind its buffer   *)
+(* is a state of its own and gets emitted (without them breadth-first search reaches   *)
+(* the same disk/buffer state by a shorter history that never filled the buffer).      *)
 EXTENDS SegLog, Json
-VARIABLE h
+VARIABLES h, risk, crit
 CONSTANTS MaxLen, EmitFrom
-HInit == Init /\ h = << >>
-HAppend == (\E n \in 1..MaxRec : \E c \in BOOLEAN : WAppend(n, c)) /\ h' = Append(h, last')
-HAppendFull == (\E n \in 1..MaxRec : AppendFull(n)) /\ h' = Append(h, last')
-HFlushW == FlushW /\ h' = Append(h, last')
-HSync == Sync /\ h' = Append(h, last')
-HToggle == Toggle /\ h' = Append(h, last')
-HReopen == Reopen /\ h' = Append(h, last')
-HSetLen == (\E o \in Offsets : SetLen(o)) /\ h' = Append(h, last')
-HReadRandom == (\E r \in Reader : \E o \in Offsets : ReadRandom(r, o)) /\ h' = Append(h, last')
-HReadSeq == (\E r \in Reader : \E o \in Offsets : ReadSeq(r, o)) /\ h' = Append(h, last')
-HIter == (\E r \in Reader : \E o \in Offsets : Iter(r, o)) /\ h' = Append(h, last')
-HReplace == (\E r \in Reader : \E o \in Offsets : Replace(r, o)) /\ h' = Append(h, last')
+HInit == Init /\ h = << >> /\ risk = [r \in Reader |-> {}] /\ crit = FALSE
+
+Covers(q, x) == cache[q].hi > cache[q].lo /\ x >= cache[q].lo /\ x < cache[q].hi
+Quiet == risk' = risk /\ crit' = FALSE
+HAppend == (\E n \in 1..MaxRec : \E c \in BOOLEAN : WAppend(n, c)) /\ h' = Append(h, last') /\ Quiet
+HAppendFull == (\E n \in 1..MaxRec : AppendFull(n)) /\ h' = Append(h, last') /\ Quiet
+\* data flushed after a buffer was filled: offsets that became readable behind that buffer
+Grown == [q \in Reader |-> IF cache[q].hi > cache[q].lo
+                           THEN risk[q] \cup {x \in Offsets : x >= flushed /\ x < flushed'}
+                           ELSE risk[q]]
+HFlushW == FlushW /\ h' = Append(h, last') /\ risk' = Grown /\ crit' = FALSE
+HSync == Sync /\ h' = Append(h, last') /\ risk' = Grown /\ crit' = FALSE
+HToggle == Toggle /\ h' = Append(h, last') /\ Quiet
+HReopen == Reopen /\ h' = Append(h, last') /\ risk' = [r \in Reader |-> {}] /\ crit' = FALSE
+HSetLen == (\E o \in Offsets : SetLen(o)
+               /\ risk' = [q \in Reader |-> risk[q] \cup {x \in Offsets : x >= o /\ Covers(q, x)}])
+           /\ h' = Append(h, last') /\ crit' = FALSE
+HReadRandom == (\E r \in Reader : \E o \in Offsets : ReadRandom(r, o)) /\ h' = Append(h, last') /\ Quiet
+HReadSeq == (\E r \in Reader : \E o \in Offsets : ReadSeq(r, o)
+                /\ crit' = (o \in risk[r]) /\ risk' = [risk EXCEPT ![r] = @ \ {o}])
+            /\ h' = Append(h, last')
+HIter == (\E r \in Reader : \E o \in Offsets : Iter(r, o)
+             /\ crit' = (\E x \in risk[r] : x >= o) /\ risk' = [risk EXCEPT ![r] = {x \in @ : x < o}])
+         /\ h' = Append(h, last')
+HReplace == (\E r \in Reader : \E o \in Offsets : Replace(r, o)
+                /\ risk' = [q \in Reader |-> IF q # r /\ last'.ok /\ Covers(q, o)
+                                             THEN risk[q] \cup {o} ELSE risk[q]])
+            /\ h' = Append(h, last') /\ crit' = FALSE
 HNext == HAppend \/ HAppendFull \/ HFlushW \/ HSync \/ HToggle \/ HReopen \/ HSetLen
          \/ HReadRandom \/ HReadSeq \/ HIter \/ HReplace
 \* reads leave `last` behind but nothing else: hide last and h from the fingerprint
-View == <<disk, pend, ppos, wofs, flushed, dirty, comp, nextId, starts, cache>>
+View == <<disk, pend, ppos, wofs, flushed, dirty, comp, nextId, starts, cache, risk, crit>>
 HBound == Len(h) <= MaxLen
-Emit == (Len(h) >= EmitFrom) => PrintT(<<"REPLAY", ToJson(h)>>)
+Emit == (Len(h) >= EmitFrom \/ crit) => PrintT(<<"REPLAY", ToJson(h)>>)
 =============================================================================
